@@ -135,13 +135,18 @@ def _check_queries(case, prob, res):
     # goal_on_parameter / parameter_on_goal / parameter_on_parameter
     pn, pn2, gn = "p%d" % q["pi"], "p%d" % q["pj"], "g%d" % q["gi"]
     srt = q["sorted"]
+    # the last generation and unsorted output are the DEFAULTS of these queries: when the case asks for exactly that, the
+    # arguments are left out, as a caller would
+    kw = {} if q["pop"] == -1 else {"population_id": q["pop"]}
+    kws = dict(kw) if not srt else dict(kw, sorted=True)
     with guard("queries"):
-        gop = res.goal_on_parameter(pn, gn, population_id=q["pop"], sorted=srt)
-        pog = res.parameter_on_goal(gn, pn, population_id=q["pop"], sorted=srt)
-        pop_ = res.parameter_on_parameter(pn, pn2, population_id=q["pop"], sorted=srt)
-        goi = res.goal_on_index(gn, population_id=q["pop"])
-        goi_all = res.goal_on_index(population_id=q["pop"])
-        poi = res.parameter_on_index(pn, population_id=q["pop"])
+        gop = res.goal_on_parameter(pn, gn, **kws)
+        pog = res.parameter_on_goal(gn, pn, **kws)
+        pop_ = res.parameter_on_parameter(pn, pn2, **kws)
+        goi = res.goal_on_index(gn, **kw)
+        goi_all = res.goal_on_index(**kw)
+        poi = res.parameter_on_index(pn, **kw)
+        poi_all = res.parameter_on_index(**kw)
     pairs = [(i.vector[q["pi"]], i.costs[q["gi"]]) for i in scope]
     if len(gop) != 2 or _ms(zip(gop[0], gop[1])) != _ms(pairs):
         raise Violation("queries", "goal_on_parameter:pairing", "goal_on_parameter(sorted=%r) = %r, recorded pairs %r" % (
@@ -155,17 +160,23 @@ def _check_queries(case, prob, res):
             srt, pog, pairs))
     if srt and any(a > b for a, b in zip(pog[0], pog[0][1:])):
         raise Violation("queries", "parameter_on_goal:order", "sorted output not non-decreasing: %r" % (pog[0],))
+    if not srt and list(zip(pog[1], pog[0])) != pairs:
+        raise Violation("queries", "parameter_on_goal:recording-order", "%r vs %r" % (pog, pairs))
     pp = [(i.vector[q["pi"]], i.vector[q["pj"]]) for i in scope]
     if len(pop_) != 2 or _ms(zip(pop_[0], pop_[1])) != _ms(pp):
         raise Violation("queries", "parameter_on_parameter:pairing", "%r vs recorded %r" % (pop_, pp))
     if srt and any(a > b for a, b in zip(pop_[0], pop_[0][1:])):
         raise Violation("queries", "parameter_on_parameter:order", "%r" % (pop_[0],))
+    if not srt and list(zip(pop_[0], pop_[1])) != pp:
+        raise Violation("queries", "parameter_on_parameter:recording-order", "%r vs %r" % (pop_, pp))
     if goi != [list(range(len(scope))), [i.costs[q["gi"]] for i in scope]]:
         raise Violation("queries", "goal_on_index", "%r" % (goi,))
     if goi_all != [list(range(len(scope)))] + [[i.costs[j] for i in scope] for j in range(m)]:
         raise Violation("queries", "goal_on_index-all", "%r" % (goi_all,))
     if poi != [list(range(len(scope))), [i.vector[q["pi"]] for i in scope]]:
         raise Violation("queries", "parameter_on_index", "%r" % (poi,))
+    if poi_all != [list(range(len(scope)))] + [[i.vector[j] for i in scope] for j in range(n)]:
+        raise Violation("queries", "parameter_on_index-all", "%r" % (poi_all,))
     # optimum
     if inds:
         with guard("queries"):
@@ -196,6 +207,23 @@ def _check_queries(case, prob, res):
         raise Violation("queries", "pareto_front", "pareto_front = %r, front-1 members %r" % (pf, [i.costs for i in f1]))
     if [id(x) for x in pi_] != [id(x) for x in f1]:
         raise Violation("queries", "pareto_individuals", "wrong members")
+    lastpop = [i for i in inds if i.population_id == last]
+    if len(lastpop) > 1:
+        with guard("queries"):
+            pv = res.pareto_values()
+        if [list(c) for c in pv] != [list(i.costs) for i in lastpop]:
+            raise Violation("queries", "pareto_values", "pareto_values() = %r, costs of the last generation %r" % (
+                pv, [i.costs for i in lastpop]))
+        ref = [[float(c) + 0.5 for c in lastpop[0].costs], [float(c) - 1.0 for c in lastpop[-1].costs]]
+        comp = [[float(c) for c in i.costs] for i in lastpop]
+        with guard("queries"):
+            pm_e = float(res.performance_measure([tuple(r) for r in ref]))
+            pm_g = float(res.performance_measure([tuple(r) for r in ref], type="gd"))
+        exp_e, exp_g = O.eps_add_reference(ref, comp), O.gd_reference(ref, comp)
+        if abs(pm_e - exp_e) > 1e-9 * max(1.0, abs(exp_e)) or abs(pm_g - exp_g) > 1e-9 * max(1.0, abs(exp_g)):
+            raise Violation("queries", "performance_measure", "performance_measure(%r) = %r (epsilon) / %r (gd) over the last "
+                            "generation %r, indicators computed directly %r / %r" % (ref, pm_e, pm_g, comp, exp_e, exp_g))
+        classes.append("performance-measure")
     unsorted_tags = len(set(tags)) >= 2 and tags != sorted(tags)
     dup_sorted = srt and len(set(p for p, _ in pairs)) < len(pairs)
     if unsorted_tags:
